@@ -460,8 +460,9 @@ Record skip_cfg := mk_skip {
   exclude_ints : list Z            (* exclude_obj_callback = lambda obj, path: type(obj) is int and obj in [...] *)
 }.
 (* _skip_this: the if / elif chain as written: with include_paths (and a parent other than root) the later
-   criteria are not consulted.  Paths whose textual prefix relation differs from the structural one (root[1] is a
-   textual prefix of root[10]) are kept out of the correspondence inputs. *)
+   criteria are not consulted.  The code matches include paths with str.startswith on the spelled path; the closing
+   bracket / quote makes that the structural prefix relation for keys without quotes and brackets (keys with them are
+   kept out of the correspondence inputs). *)
 Definition skip_this (c : skip_cfg) (p : xpath) (v : xvalue) : bool :=
   let s1 := existsb (xpath_eqb p) (exclude_paths c) in
   match include_paths c, p with
